@@ -2,3 +2,4 @@ CONSTANTS NSeeds = 3
 NMax = 3
 SPECIFICATION Spec
 INVARIANT DimOK
+INVARIANT PertOK
